@@ -17,6 +17,8 @@ CONSTANTS
  Exts = {FALSE}
  KeepSlots = FALSE
  TarUnverified = FALSE
+ MTs = {TRUE}
+ DigestHdrs = {"served"}
 INIT Init
 NEXT Next
 VIEW View
